@@ -73,8 +73,10 @@ pub const FLOATS: [f64; 30] = [
     9007199254740993.0, 1e19, -1e19, 9.3e18, 1e300, -1e300, 5e-324, f64::MIN_POSITIVE, f64::INFINITY, f64::NEG_INFINITY, f64::NAN,
     0.1, 1e-7,
 ];
-pub const STRINGS: [&str; 29] = [
+pub const STRINGS: [&str; 35] = [
     "", "a", "ab", "abcabc", " a b ", "\t x\n", "\u{b}ab\u{b}", "\u{a0}nb\u{a0}", "\u{2003}em\u{3000}", "żółć", "ŻÓŁĆ", "ß", "İ",
+    // letters whose case mapping depends on their neighbours or is longer than one scalar
+    "ΟΔΟΣ", "ΣΑΣ ΟΣ.", "aΣ", "Σ", "ŉǰ", "ﬁﬂ",
     "😀x", "a,b,,c", ",", "12", "-12", "+7", " 3", "1.5e3", "nan",
     // scalars whose UTF-8 encoding has boundary lead / continuation bytes, and the replacement character as content
     "\u{fffd}", "a\u{fffd}b", "\u{80}\u{bf}", "\u{7ff}\u{800}", "\u{ffff}\u{10000}\u{10ffff}", "\u{43f}\u{ff}", "\u{d7ff}\u{e000}",
@@ -407,7 +409,10 @@ fn documented(name: &str, a: &[Variable], items: Option<&[Variable]>) -> Option<
         "std.string.to_lowercase" | "std.string.to_uppercase" => {
             let x = st(&a[0]);
             if !x.is_ascii() {
-                return None;
+                // beyond ASCII the "lowercase equivalent of the string" is the Unicode mapping of the whole
+                // string (context-sensitive: a word-final capital sigma; one-to-many: the sharp s), for which
+                // the platform's tables are the reference
+                return Some(s(if name.ends_with("lowercase") { x.to_lowercase() } else { x.to_uppercase() }));
             }
             s(x.chars()
                 .map(|c| if name.ends_with("lowercase") { c.to_ascii_lowercase() } else { c.to_ascii_uppercase() })
